@@ -516,6 +516,41 @@ def replay_ctor(p):
     return (not ok), f"samples_per_block={be.samples_per_block} time_per_block={be.time_per_block}"
 
 
+def _narrow_int_forms():
+    """the stand-alone helpers with their integer arguments given as NumPy fixed-width integers (as read from file
+    headers): same result as with Python integers -- executed concretely, integer wrap-around is not part of the
+    exact-integer model"""
+    from setigen.voltage import level_utils as lu
+    import setigen as stg
+    be, _ = _real_backend()
+    msgs = []
+    for fftl in (50000, 65536, 2 ** 20):
+        for ty in (np.int32, np.int64, np.uint32):
+            a, b = lu.get_unit_drift_rate(be, ty(fftl), ty(3)), lu.get_unit_drift_rate(be, fftl, 3)
+            if not (np.isfinite(a) and np.isclose(a, b, rtol=1e-12)):
+                msgs.append(f"get_unit_drift_rate(fftlength={ty.__name__}({fftl})) = {a!r}, with a Python int {b!r}")
+            pa = stg.frame.params_from_backend(obs_length=1.3, sample_rate=3e9, num_branches=ty(1024), fftlength=ty(fftl), int_factor=ty(3))
+            pb = stg.frame.params_from_backend(obs_length=1.3, sample_rate=3e9, num_branches=1024, fftlength=fftl, int_factor=3)
+            if not all(np.isclose(pa[k], pb[k], rtol=1e-12) for k in ('df', 'dt', 'tchans')):
+                msgs.append(f"params_from_backend with {ty.__name__} arguments {pa}, with Python ints {pb}")
+    return msgs
+
+
+def job_narrow_int_forms():
+    recs = []
+    msgs = _narrow_int_forms()
+    r, _ = core.check([RV(len(msgs)) != 0])
+    recs.append(q("C20:helpers:narrow-integer-arguments", r, trivial=True, detail='; '.join(msgs[:2])))
+    if msgs:
+        recs.append(cex('C20:helpers:narrow-int', '; '.join(msgs[:2]), dict(fn='narrow_int'), name="C20:helpers:narrow-integer-arguments"))
+    return recs
+
+
+def replay_narrow_int(p):
+    msgs = _narrow_int_forms()
+    return bool(msgs), '; '.join(msgs[:3]) or 'helpers agree for NumPy integer arguments'
+
+
 def replay_helpers(p):
     from setigen.voltage import backend as bk, level_utils as lu
     import setigen as stg
@@ -560,7 +595,7 @@ def replay_total_fp(p):
     return False, 'total_obs_num_samples exact on all candidates'
 
 
-REPLAYS = {'array_clock': replay_array_clock, 'total_fp': replay_total_fp, 'record': replay_record, 'num_blocks': replay_num_blocks, 'ctor': replay_ctor, 'helpers': replay_helpers}
+REPLAYS = {'narrow_int': replay_narrow_int, 'array_clock': replay_array_clock, 'total_fp': replay_total_fp, 'record': replay_record, 'num_blocks': replay_num_blocks, 'ctor': replay_ctor, 'helpers': replay_helpers}
 
 
 def main():
@@ -594,6 +629,7 @@ def main():
     for (delays, nb_, nsb_) in (((0, 3), 2, 1), ((2, 0, 5), 1, 2), ((0, 0), 2, 2)):
         jobs.append(('job_record_run_array', (delays, nb_, nsb_)))
     jobs.append(('job_helpers', ()))
+    jobs.append(('job_narrow_int_forms', ()))
     jobs.append(('job_record_lengths_fp', ()))
     ck.bounds = dict(configs=space, windows_per_block='symbolic integer >= 1', requested_blocks='symbolic integer <= 10^6; input blocks symbolic <= 10^6', durations='symbolic real <= 10^6 s', executed_recordings='1..3 blocks')
     ck.run_jobs('props.C20', jobs, timeout_s=900)
